@@ -675,6 +675,11 @@ func main() {
 	rng := hx.NewRng(a.Seed)
 	res := hx.NewResult("a block is non-trivial when at least one of its transactions passed the fee step and reached the registry checks of its executor (result other than evict/json); distinct = distinct (transaction kinds, result classes, registry size before, escrow credited or not)")
 	cs := hx.NewCases(a.Out, "From V.C20 Require Import Model KeyModel Harness.", "case", "check", 60)
+	litCases = hx.NewCasesNamed(a.Out, "lit", "From V.C20 Require Import Model KeyModel Harness.", "lcase", "check_lit", 12)
+	litLeft = 5
+	if a.Tier == "thorough" {
+		litLeft = 60
+	}
 	boot(20)
 
 	blocksPerWorld := 45
@@ -687,7 +692,8 @@ func main() {
 	}
 	aliasSearch(rng, res, cs)
 	cs.Close()
-	res.ModelCases = cs.Total()
+	litCases.Close()
+	res.ModelCases = cs.Total() + litCases.Total()
 	res.Write(a.Out)
 	fmt.Printf("c20: %d evaluations, %d model cases, %d distinct non-trivial\n", res.Evaluations, cs.Total(), res.DistinctNontrivial)
 	keys := make([]string, 0, len(res.Histogram))
@@ -726,6 +732,44 @@ func (w *world) nextHeight(r *hx.Rng) uint64 {
 // Keys are INTERNED: every distinct real key byte string (the id bytes and their SHA-256 chains, computed with the
 // node's common.Sha256) gets a small number; two model keys are equal iff the real key bytes are equal. The table
 // interned number -> real bytes travels with the case's JSON description (cases.jsonl).
+// envLit: the same with LITERAL key bytes (0x01 followed by the bytes, as a number) and no hash table: the model
+// computes the SHA-256 chains itself (coq/C20/Sha256.v); second result = the chains common.Sha256 produced.
+func (w *world) envLit() (string, string) {
+	ids := make([]int, len(w.ids))
+	var ik, ch []string
+	for i, id := range w.ids {
+		ids[i] = i + 1
+		ik = append(ik, fmt.Sprintf("(%d%%N,%s)", i+1, keyN(id)))
+		x := id
+		for n := 0; n < 7; n++ {
+			y := common.Sha256(x)
+			ch = append(ch, fmt.Sprintf("(%s,%s)", keyN(x), keyN(y)))
+			x = y
+		}
+	}
+	var au, ad []string
+	accts := make([]int, len(w.accts))
+	for i, a := range w.accts {
+		accts[i] = i + 1
+		var u uint64
+		if len(a) >= 8 {
+			u = binary.BigEndian.Uint64(a[:8])
+		}
+		au = append(au, fmt.Sprintf("(%d%%N,%d%%N)", i+1, u))
+		ad = append(ad, fmt.Sprintf("(%d%%N,%d%%N)", i+1, w.addrOf[i+1]))
+	}
+	return fmt.Sprintf("%s %s [] %s %s %s %s %s", nlist(ids), hx.CoqList(ik), hx.CoqList(au), hx.CoqList(ad),
+		nlist(w.contracts), nlist(accts), nlist(w.addrU)), hx.CoqList(ch)
+}
+
+var litCases *hx.Cases
+var litLeft int
+
+func (w *world) addLit(rest string, js interface{}) {
+	env, chain := w.envLit()
+	litCases.Add(fmt.Sprintf("CSL (CS %s %s) %s", env, rest, chain), js)
+}
+
 func (w *world) envCoq() string {
 	ids := make([]int, len(w.ids))
 	intern := map[string]int{}
@@ -768,6 +812,11 @@ func (w *world) envCoq() string {
 	w.keyBytes = kb
 	return fmt.Sprintf("%s %s %s %s %s %s %s %s", nlist(ids), hx.CoqList(ik), hx.CoqList(ht), hx.CoqList(au), hx.CoqList(ad),
 		nlist(w.contracts), nlist(accts), nlist(w.addrU))
+}
+
+// keyN: key bytes as a Coq N: 0x01 followed by the bytes, big-endian
+func keyN(b []byte) string {
+	return new(big.Int).SetBytes(append([]byte{1}, b...)).String() + "%N"
 }
 
 type blockRun struct {
@@ -926,6 +975,10 @@ func (w *world) runCaseBlock(r *hx.Rng, res *hx.Result, h uint64, g []gtx, casto
 					key := "C20/views-agree:mid-block-by-account-wrong" // the iterator yields the miner: not the unflushed-write case
 					if indexOf(cur.iter[m.K], m.I) < 0 {
 						key = "C20/views-agree:mid-block-iterator-misses-dirty"
+					} else if bi := cur.byAcct[m.Acct]; bi > 0 && cur.getMiner(bi) == nil {
+						// the answer is a miner removed in this block whose json entry the unflushed trie still holds
+						// (its account reads as empty): the other known face of the two-level view
+						key = "C20/views-agree:mid-block-iterator-yields-removed"
 					}
 					res.Violate(key, fmt.Sprintf("after %s id %d carries account %d but GetMinerIdByAccount(account %d) = id %d", tag, m.I, m.Acct, m.Acct, cur.byAcct[m.Acct]), input)
 				}
@@ -1133,6 +1186,10 @@ func (w *world) step(r *hx.Rng, res *hx.Result, cs *hx.Cases) {
 	envTerm := w.envCoq()
 	input["keys"] = w.keyBytes
 	cs.Add(fmt.Sprintf("CS %s %s %s %s", envTerm, w.heightsCoq(), w.stateCoq(pre), hx.CoqList([]string{"(" + br.term + ")"})), input)
+	if litLeft > 0 && len(pre.miners) > 0 {
+		litLeft--
+		w.addLit(fmt.Sprintf("%s %s %s", w.heightsCoq(), w.stateCoq(pre), hx.CoqList([]string{"(" + br.term + ")"})), input)
+	}
 
 	if doSib {
 		rootA := w.Root
@@ -1453,6 +1510,7 @@ func aliasSearch(r *hx.Rng, res *hx.Result, cs *hx.Cases) {
 		envTerm := w.envCoq()
 		input["keys"] = w.keyBytes
 		cs.Add(fmt.Sprintf("CS %s %s %s %s", envTerm, w.heightsCoq(), w.stateCoq(pre0), hx.CoqList(terms)), input)
+		w.addLit(fmt.Sprintf("%s %s %s", w.heightsCoq(), w.stateCoq(pre0), hx.CoqList(terms)), input)
 		class := "alias-refused"
 		switch {
 		case after == nil:
@@ -1674,6 +1732,76 @@ func (w *world) purityCheck(res *hx.Result, rootA, rootB common.Hash, qh uint64,
 			input["queries"] = trace
 			res.Violate("C20/totals:access-reader-disagrees:GetTotalStake", fmt.Sprintf("sibling states at one height: GetTotalStake(%d, state %s) = %d, that state holds %d active proposer records", x.h, x.name, got, want), input)
 		}
+	}
+	// the other readers in the same fork order: the per-miner lookup and the candidate list
+	if !readerConvertBroken {
+		func() {
+			defer func() {
+				if x := recover(); x != nil {
+					readerConvertBroken = true
+				}
+			}()
+			descMiner := func(root common.Hash, id []byte) string {
+				md := reader.GetProposeMiner(groupsig.DeserializeID(id), root)
+				if md == nil {
+					return "-"
+				}
+				return fmt.Sprintf("stake%d/apply%d/type%d", md.Stake, md.ApplyHeight, md.MinerType)
+			}
+			wantMiner := func(root common.Hash, id []byte) string {
+				adb, _ := account.NewAccountDB(root, w.TDB)
+				m := service.MinerManagerImpl.GetMinerById(id, 1, adb)
+				if m == nil {
+					return "-"
+				}
+				return fmt.Sprintf("stake%d/apply%d/type%d", m.Stake, m.ApplyHeight, m.Type)
+			}
+			descCands := func(root common.Hash, h uint64) string {
+				var out []string
+				for _, c := range reader.GetCandidateMiners(h, root) {
+					out = append(out, fmt.Sprintf("%s:%d", common.ToHex(c.ID.Serialize()), c.Stake))
+				}
+				sort.Strings(out)
+				return strings.Join(out, ",")
+			}
+			wantCands := func(root common.Hash, h uint64) string {
+				adb, _ := account.NewAccountDB(root, w.TDB)
+				var out []string
+				for _, id := range w.ids {
+					if m := service.MinerManagerImpl.GetMinerById(id, 0, adb); m != nil && m.Status == 0 && h > m.ApplyHeight {
+						out = append(out, fmt.Sprintf("%s:%d", common.ToHex(groupsig.DeserializeID(id).Serialize()), m.Stake))
+					}
+				}
+				sort.Strings(out)
+				return strings.Join(out, ",")
+			}
+			firstM, firstC := map[string]string{}, map[string]string{}
+			for _, x := range seq {
+				for i, id := range w.ids {
+					if len(id) != 32 {
+						continue
+					}
+					got, want := descMiner(x.root, id), wantMiner(x.root, id)
+					key := fmt.Sprintf("%s/id%d", x.name[:1], i+1)
+					if f, ok := firstM[key]; ok && f != got {
+						res.Violate("C20/totals:access-reader-impure:GetProposeMiner", fmt.Sprintf("GetProposeMiner(id %d, state %s) answered %s and later %s", i+1, x.name[:1], f, got), input)
+					}
+					firstM[key] = got
+					if got != want {
+						res.Violate("C20/totals:access-reader-disagrees:GetProposeMiner", fmt.Sprintf("sibling states: GetProposeMiner(id %d, state %s) = %s, the proposer record of that state is %s", i+1, x.name[:1], got, want), input)
+					}
+				}
+				got, want := descCands(x.root, x.h), wantCands(x.root, x.h)
+				key := fmt.Sprintf("%s@%d", x.name, x.h)
+				if f, ok := firstC[key]; ok && f != got {
+					res.Violate("C20/totals:access-reader-impure:GetCandidateMiners", fmt.Sprintf("GetCandidateMiners(%d, state %s) answered [%s] and later [%s]", x.h, x.name, f, got), input)
+				}
+				firstC[key] = got
+				if got != want {
+					res.Violate("C20/totals:access-reader-disagrees:GetCandidateMiners", fmt.Sprintf("sibling states: GetCandidateMiners(%d, state %s) = [%s], the validator records of that state give [%s]", x.h, x.name, got, want), input)
+				}
+			}
+		}()
 	}
 	if w.activeProposers(rootA, qh) != w.activeProposers(rootB, qh) {
 		res.Histogram["sibling states with different proposer counts"]++
